@@ -502,7 +502,7 @@ func tailStr(s string, n int) string {
 
 type c01Case struct {
 	Path    []c01Step `json:"path"`
-	Big     bool      `json:"big,omitempty"` // the large-block history (re-run as a whole)
+	Big     bool      `json:"big,omitempty"`  // the large-block history (re-run as a whole)
 	Long    bool      `json:"long,omitempty"` // the long history (re-run as a whole)
 	BigStep int       `json:"big_step,omitempty"`
 }
